@@ -30,6 +30,7 @@ fn main() {
         "ident" => ident::ident,
         "expr" => exprfam::exprcase,
         "cond" => exprfam::condcase,
+        "insert" => exprfam::inscase,
         _ => {
             eprintln!("unknown family {family}");
             std::process::exit(2);
